@@ -202,6 +202,80 @@ def args_by_type(b):
     return out
 
 
+def residual_operands(F, ev):
+    """(data parameter, coefficient parameter) of the statistics constructor, told apart by use: the weighted residuals
+    are `data − W·Φ·coefficients` (R-CHI2 decides that form); None when the form is not recognised"""
+    sr = stats_roles(F, ev)
+    b, env, f, s, bi = ctor_fields(F, ev)
+    a = args_by_type(b)
+    n = nfmod.NF().nf(f[sr["wres"]])
+    pos = [m for m, c in n.items() if c == 1]
+    neg = [m for m, c in n.items() if c == -1]
+    if len(n) == 2 and len(pos) == 1 and len(neg) == 1:
+        (sp, fp), (sn, fn_) = pos[0], neg[0]
+        if not sp and not sn and len(fp) == 1 and len(fn_) == 3:
+            y, c = fp[0][0], fn_[2][0]
+            if y in a.get("mats", []) and c in a.get("mats", []) and y != c:
+                return y, c
+    return None
+
+
+def rule_stats_args(F, ev, R, config, rule="R-STATS-ARGS"):
+    """the statistics are computed from the state of the very problem the fit ended with: at every call of the statistics
+    constructor the model, the weighted data, the weights and the coefficients are the corresponding roles of ONE problem
+    value (accessors are inlined, views and copies are transparent), the coefficients being those of its cache. Together
+    with R-CHI2 (r_w = data − W·Φ(model)·c) and R-RESID-TERM (the cache's residuals are Y_w − W·Φ·c with the cached c)
+    this is what makes the reported weighted residuals those of the fit."""
+    from rules_problem import resolve_cache_roles_by_use
+    from rules_panic import nosite
+    b, env, f, s, bi = ctor_fields(F, ev)
+    a = args_by_type(b)
+    yc = residual_operands(F, ev)
+    if yc is None or "model" not in a or "weights" not in a:
+        R.bad(rule, config, b.key, "anchor-missing", "operands of the statistics constructor not identified (see R-CHI2)")
+        return
+    pr = problem_roles(F)
+    cuse = resolve_cache_roles_by_use(F, ev)
+    want = {a["model"][2]: ("model", pr["model"]), yc[0][2]: ("data", pr["data"]), a["weights"][2]: ("weights", pr["weights"]), yc[1][2]: ("coefficients", None)}
+    VIEWS = ("as_view", "column", "columns", "clone", "clone_owned", "into_owned", "as_ref", "deref", "borrow", "view", "generic_view", "rows_generic", "columns_generic")
+
+    def strip(t):
+        while t[0] == "call" and t[1].rsplit("::", 1)[-1] in VIEWS and t[3]:
+            t = t[3][0]
+        return t
+    n = 0
+    for cb in sorted(F.bodies.values(), key=lambda x: x.key):
+        for ci, t in cb.calls():
+            if "fn" not in t or (t["fn"].get("resolved_key") or t["fn"].get("key")) != b.key:
+                continue
+            n += 1
+            e = Env(cb)
+            ev.fresh_ctx()
+            bases = {}
+            for i, op in enumerate(t["args"]):
+                role, fld = want.get(i + 1, (None, None))
+                if role is None:
+                    continue
+                v = strip(ev.operand(e, op, (ci, None)))
+                ok, base = False, None
+                if role == "coefficients":
+                    # payload(field(P, cache)).coefficient role
+                    if v[0] == "field" and v[2] == cuse["coeff"] and v[1][0] == "payload" and v[1][2] == "ok":
+                        c = v[1][1]
+                        if c[0] == "field" and c[2] == pr["cache"]:
+                            ok, base = True, c[1]
+                elif v[0] == "field" and v[2] == fld:
+                    ok, base = True, v[1]
+                if ok:
+                    bases[role] = nosite(base)
+                R.add(rule, config, cb.key, "statistics-of-%s" % role, ok,
+                      "" if ok else "the %s handed to the statistics is `%s`, not the %s of the fitted problem" % (role, short(v)[:120], role), t.get("span"))
+            same = len(bases) == 4 and len(set(map(repr, bases.values()))) == 1
+            R.add(rule, config, cb.key, "statistics-of-one-problem", same,
+                  "" if same else "the statistics' inputs are taken from different problem values: %s" % {k: short(v)[:60] for k, v in bases.items()}, t.get("span"))
+    R.floor(rule, config, 5, "four inputs + one problem at the statistics call site")
+
+
 def rule_chi2(F, ev, R, config, rule="R-CHI2"):
     sr = stats_roles(F, ev)
     b, env, f, s, bi = ctor_fields(F, ev)
